@@ -340,6 +340,21 @@ def plan(plan, tier, seed):
         plan.anchor_errors.append((nr, str(e)))
     plan.dropped.append(vC06r.__doc__.strip())
     plan.assumptions.append("run_program loop: a factory is an opaque value and applying it yields an opaque function object build(factory, arity, arguments); Value::clone is the identity on identities; the emitted-program precondition (operands < reg_count, const ids < constant count, no Ret) is what CompileCtx guarantees (register allocator contract: C06.ctx.*) -- the two are not composed mechanically; a hostile file violating it makes the loop index out of bounds (outside C06: the property speaks of compiled programs)")
+    # ---- container constants: both writers of MechTable / MechSet / MechTuple against the layout their reader consumes
+    from units import vC06c
+    ctext = vlib.read_repo(vC06c.PATH)
+    for ty in vC06c.TYPES:
+        for which, fdesc in (("write_le", "impl ConstElem for %s: write_le" % ty), ("payload", "impl CompileConst for %s: compile_const (payload)" % ty)):
+            on = "C06.verus.container_const.%s.%s" % (ty, which)
+            plan.ob(on, "verus", "proved", functions=["src/core/src/program/compiler/constants.rs: " + fdesc],
+                    what="the writer emits exactly the layout the reader from_le consumes -- kind, the counts in the reader's order, then every element / column (id, kind, data, name) in iteration order -- so compile_const and write_le agree with each other and with the reader's order of reads")
+            try:
+                utext, can = vC06c.unit(ctext, ty, which)
+                plan.verus.append(vlib.VerusUnit("c06_const_%s_%s" % (ty.lower(), which), utext, {"write_le" if which == "write_le" else "compile_const_payload": on}, [can]))
+            except AnchorLost as e:
+                plan.anchor_errors.append((on, str(e)))
+    plan.dropped.append(vC06c.__doc__.strip())
+    plan.assumptions.append("container constants: the byte buffer is a token stream (one token per primitive write; the bytes of a token are the scalar codecs' subject); IndexMap / IndexSet iterate in insertion order (modelled as vectors); the READER from_le of the containers is not under contract (its order of reads is transcribed by hand into contracts/C06/constmodel.rs: table = kind, rows, cols, columns; set / tuple = kind, count, elements)")
     with open(os.path.join(VERIF, "contracts", "C06", "kani_constants.rs")) as f:
         text = f.read()
     plan.harness_files[os.path.join(GEN, "C06", "kani_constants.rs")] = text
